@@ -268,6 +268,10 @@ def run(run: Run):
     from .common import check_per_instance_state
     run.rule('C08.R6', 'runtime state is per instance: one executor cannot change what another one reports')
     run.guard('C08.R6', check_per_instance_state, run, 'C08.R6', get_runtime(get_source()))
+    from . import c18
+    run.rule('C08.R7', 'reported sizes are those of the sheet itself: per-sheet accumulators are reset per sheet (shared with C18.R2)')
+    borrow(run, 'C08.R7', c18.r2, src)
+    run.floor('C08.R7', 5)
     run.floor('C08.R6', 6)
     run.floor('C08.R1', 100)
     run.floor('C08.R2', 4)
